@@ -149,6 +149,16 @@ EXTRA_SEEDS += [
 ]
 
 
+# ranges with more items than len() can count, in every tag that loops
+EXTRA_SEEDS += [
+    "{% render 'a' for (1..99999999999999999999) %}", "{% include 'a' for (1..99999999999999999999) as x %}",
+    "{% for i in (1..99999999999999999999) limit: 2 %}{{ i }}{% endfor %}",
+    "{% tablerow i in (-99999999999999999999..99999999999999999999) limit: 2 %}{{ i }}{% endtablerow %}",
+    "{{ (1..99999999999999999999) | size }}{{ (1..99999999999999999999) | last }}",
+    "{% assign r = (1..99999999999999999999) %}{% render 'b', y: r %}{% cycle r, r %}{{ r | join: ',' | size }}",
+]
+
+
 def _corpus_sources() -> list[dict[str, Any]]:
     return corpus() + [{"template": t, "data": {}} for t in EXTRA_SEEDS]
 
